@@ -258,7 +258,8 @@ example :
   have hp : st.panicked = false := rfl
   simp [step, hcl, hp, dataTargets, hg, Elem.isTerm, cfg, Strategy.index]
 
-/-! ## RoutingEnd (`Stream::route`, route.rs) — used by C09 -/
+/-! ## RoutingEnd (`Stream::route`, route.rs): facts about `routeData`; the operator model, driver and
+     harness of the `route` component belong to C09 (`Model/Route.lean`) -/
 
 /-- **First matching route only.** If route `k` is the first whose filter accepts the item, the
     item is enqueued to exactly one sender, the `index`-th (sorted) sender towards route `k`'s block
@@ -298,13 +299,6 @@ theorem route_unmatched_dropped (gs : List (List Nat)) (accept : List Bool) (ind
     have := h p.2 (List.of_mem_zip hp).2
     simp [this]
   simp [routeData, this]
-
-/-- a live `RoutingEnd` enqueues a data element exactly to `routeData` -/
-theorem routeStep_data (accept : α → List Bool) (index : α → Nat) (st : State) (a : α)
-    (hc : st.closed = false) (hp : st.panicked = false) (ts : List Nat)
-    (h : routeData st.groups (accept a) (index a) = some ts) :
-    (routeStep accept index st (.item a)).2 = ts.map (fun i => (i, Elem.item a)) := by
-  simp [routeStep, hc, hp, h, Elem.isTerm]
 
 /-- three routes, the item is accepted by the 2nd and the 3rd: only the 2nd route's sender gets it -/
 example : routeData [[0], [1, 2], [3]] [false, true, true] 0 = some [1] := by decide
